@@ -79,6 +79,12 @@ def measure(scn, H, stats):
             first_run = False
         elif rec['op'] == 'reset' and rec['exc'] is None:
             m['F_RESET'] += 1
+        elif rec['op'] == 'convert_live' and rec['exc'] is None:
+            m['F_UNITSWITCH_LIVE'] += 1
+        elif rec['op'] == 'redeclare' and rec['exc'] is None:
+            m['F_REDECLARE'] += 1
+        elif rec['op'] == 'set_pwm' and rec['exc'] is None:
+            m['F_SETPWM'] += 1
         elif rec['op'] == 'export' and rec.get('io', {}).get('fired'):
             m['F_IO'] += 1
     for b in H.get('build', []):
